@@ -223,6 +223,20 @@ func MX() []*descriptorpb.FileDescriptorProto {
 	enums.Field("a", 3, E(alias))
 	enums.Map("da", 4, Int32, E(alias))
 	enums.OneofField("oe", "od", 5, E(dense))
+	// declarations sharing a SHORT name under different parents: enums Kind with different number sets, messages Item
+	pp := enums.Nested("P")
+	pkind := pp.NestedEnum("Kind", "KIND_ZERO", 0, "KIND_ONE", 1)
+	pitem := pp.Nested("Item")
+	pitem.Field("a", 1, S(Int32))
+	qq := enums.Nested("Q")
+	qkind := qq.NestedEnum("Kind", "KIND_ZERO", 0, "KIND_HUNDRED", 100)
+	qitem := qq.Nested("Item")
+	qitem.Field("b", 1, S(String))
+	enums.Field("pk", 6, E(pkind))
+	enums.Rep("qks", 7, E(qkind))
+	enums.Field("pi", 8, M(pitem.Full()))
+	enums.Field("qi", 9, M(qitem.Full()))
+	enums.Map("qm", 10, Int32, E(qkind))
 
 	anys := f.Msg("Anys") // several Any values in one message, early in the draw order
 	hinted := anys.Field("hinted", 4, M(anyT)) // declared first: drawn first
@@ -231,6 +245,11 @@ func MX() []*descriptorpb.FileDescriptorProto {
 	anys.Rep("items", 1, M(anyT))
 	anys.Map("by_id", 2, Int32, M(anyT))
 	anys.Field("one", 3, M(anyT))
+
+	// a user message whose short name equals a synthesized map-entry name elsewhere in the file (Wkt.color_by_flag)
+	cbe := f.Msg("ColorByFlagEntry")
+	cbe.Field("x", 1, S(Int32))
+	cbe.Field("value", 2, S(String))
 
 	ops := f.Msg("Ops")
 	ops.Field("i", 1, S(Int32))
